@@ -55,7 +55,7 @@ var c08Exceptions = []c08Exception{
 		premise: nonEmptyAtCallSites,
 	},
 	{
-		fn: "(*bchutil.Block).Transactions", construct: "index b.msgBlock.Transactions[(rangeindex+1)]",
+		fn: "(*bchutil.Block).Transactions", construct: "index b.msgBlock.Transactions[*",
 		reason:  "class invariant of bchutil.Block: the per-index cache is only ever made with len(msg.Transactions) (C16.index), so an index ranging over the cache is in range of the message's list",
 		premise: blockCachePremise,
 	},
